@@ -80,7 +80,10 @@ UWrite == /\ Has("write") /\ pend # NoMem /\ pa = UE.a /\ (TruncFirst => cur = E
 \* file stays truncated
 UCrash == /\ Has("crash")
           /\ IF pa = UE.a THEN pend' = NoMem /\ pa' = 0 ELSE UNCHANGED <<pend, pa>>   \* (after its write the record is stored)
-          /\ ul' = ul + 1 /\ UNCHANGED <<cur, known, vars>>
+          \* died between apply and the logged write: the write(2) itself may have happened (its hook follows the system call)
+          /\ \/ UNCHANGED <<cur, known>>
+             \/ pa = UE.a /\ pend # NoMem /\ ~TruncFirst /\ cur' = pend /\ known' = TRUE
+          /\ ul' = ul + 1 /\ UNCHANGED vars
 
 UNext == UReset \/ UApply \/ UTrunc \/ UWrite \/ UCrash
 USpec == UInit /\ [][UNext]_<<vars, uvars>>
